@@ -328,7 +328,17 @@ func (w *loopWorld) clientTask(c *loopConn) {
 		if err := send(fmt.Sprintf(`{"jsonrpc":"2.0","id":%d,"method":"h","params":{"t":%q}}`, i+1, tag)); err != nil {
 			break
 		}
-		rep, err := recv()
+		var rep string
+		var err error
+		for {
+			rep, err = recv()
+			// a record that does not bear the id of this call (a notice with id
+			// null, say) is not its reply
+			if err != nil || strings.Contains(rep, fmt.Sprintf(`"id":%d,`, i+1)) || strings.Contains(rep, fmt.Sprintf(`"id":%d}`, i+1)) {
+				break
+			}
+			w.r.Ev("client.ignored", fmt.Sprint("conn", c.Idx), 0, 0, rep)
+		}
 		if err != nil {
 			// the server went away: close our end, as a real client would
 			closeIt()
